@@ -164,11 +164,14 @@ def one_history(ctx, hist_no, steps):
             want_exc = None
             arg = list(es) if dups or (op == "update" and rng.random() < 0.5) \
                 else set(es)
-            # the order in which the implementation will meet the edges
-            # (multigraph keys are allocated in that order)
-            kline = op + "".join(" " + edge_s(index, e) for e in list(arg))
             if op == "update" and rng.random() < 0.3:
                 arg = iter(list(es))
+                order = list(es)
+            else:
+                order = list(arg)
+            # the order in which the implementation will meet the edges
+            # (multigraph keys are allocated in that order)
+            kline = op + "".join(" " + edge_s(index, e) for e in order)
             try:
                 with core.time_limit(10):
                     if op == "update":
